@@ -2,12 +2,19 @@ use std::cmp::max;
 use inkayaku_board::constants::ZobristHash;
 
 pub struct ZobristHistory {
-    history: [ZobristHash; 5000],
+    history: Vec<ZobristHash>,
 }
 
 impl ZobristHistory {
     pub fn set(&mut self, index: u16, zobrist_hash: ZobristHash) {
+        if index as usize >= self.history.len() {
+            self.history.resize(index as usize + 1, 0);
+        }
         self.history[index as usize] = zobrist_hash;
+    }
+
+    fn get(&self, index: usize) -> ZobristHash {
+        self.history.get(index).copied().unwrap_or(0)
     }
 
     pub fn count_repetitions(&self, start_index: u16, halfmove_clock: u16) -> usize {
@@ -17,12 +24,12 @@ impl ZobristHistory {
 
         let mut current_index = start_index as i32 - 4;
         let mut repetitions = 1_usize;
-        let zobrist = self.history[start_index as usize];
+        let zobrist = self.get(start_index as usize);
 
         let min_index = max(0, start_index as i32 - halfmove_clock as i32);
 
         while current_index >= min_index {
-            let current_zobrist = self.history[current_index as usize];
+            let current_zobrist = self.get(current_index as usize);
             if current_zobrist == zobrist {
                 repetitions += 1;
 
@@ -40,7 +47,7 @@ impl ZobristHistory {
 
 impl Default for ZobristHistory {
     fn default() -> Self {
-        Self { history: [0; 5000] }
+        Self { history: vec![0; 5000] }
     }
 }
 
